@@ -28,6 +28,62 @@ type walkNode struct {
 
 const envMax = 10
 
+// Aliases: "phiName~valueName" says that on this path the phi currently carries the (unevaluated)
+// boolean value valueName - the value form of `x := a || b` / a flag helper expanded in place, whose
+// deciding comparison is never the condition of a branch of its own.
+var valueByNameCache = map[*ssa.Function]map[string]ssa.Value{}
+
+func valueByName(fn *ssa.Function, name string) ssa.Value {
+	m := valueByNameCache[fn]
+	if m == nil {
+		m = map[string]ssa.Value{}
+		for _, b := range fn.Blocks {
+			for _, in := range b.Instrs {
+				if v, ok := in.(ssa.Value); ok {
+					m[v.Name()] = v
+				}
+			}
+		}
+		valueByNameCache[fn] = m
+	}
+	return m[name]
+}
+
+func envAlias(env string, phi *ssa.Phi) ssa.Value {
+	if env == "" || phi == nil {
+		return nil
+	}
+	key := ";" + phi.Name() + "~"
+	i := strings.Index(";"+env, key)
+	if i < 0 {
+		return nil
+	}
+	rest := (";" + env)[i+len(key):]
+	if j := strings.Index(rest, ";"); j >= 0 {
+		rest = rest[:j]
+	}
+	return valueByName(phi.Parent(), rest)
+}
+
+func envSetAlias(env string, phi *ssa.Phi, v ssa.Value) string {
+	name := phi.Name()
+	var parts []string
+	for _, p := range strings.Split(env, ";") {
+		if p == "" || strings.HasPrefix(p, name+"=") || strings.HasPrefix(p, name+"~") {
+			continue
+		}
+		parts = append(parts, p)
+	}
+	if v != nil {
+		parts = append(parts, name+"~"+v.Name())
+		sort.Strings(parts)
+		if len(parts) > envMax {
+			parts = parts[len(parts)-envMax:]
+		}
+	}
+	return strings.Join(parts, ";")
+}
+
 func envGet(env string, v ssa.Value) (val bool, known bool) {
 	if env == "" || v == nil {
 		return false, false
@@ -218,7 +274,7 @@ func envSet(env string, v ssa.Value, val bool, known bool) string {
 	name := v.Name()
 	var parts []string
 	for _, p := range strings.Split(env, ";") {
-		if p == "" || strings.HasPrefix(p, name+"=") {
+		if p == "" || strings.HasPrefix(p, name+"=") || strings.HasPrefix(p, name+"~") {
 			continue
 		}
 		parts = append(parts, p)
@@ -284,6 +340,11 @@ func truthOf(v ssa.Value, at *ssa.BasicBlock, env string, depth int) (bool, bool
 	}
 	if val, ok := envGet(env, v); ok {
 		return val, true
+	}
+	if phi, ok := v.(*ssa.Phi); ok {
+		if a := envAlias(env, phi); a != nil && a != v {
+			return truthOf(a, at, env, depth+1)
+		}
 	}
 	if u, ok := v.(*ssa.UnOp); ok && u.Op == token.NOT {
 		x, k := truthOf(u.X, at, env, depth+1)
@@ -415,6 +476,7 @@ func (n walkNode) step(i int) walkNode {
 		type upd struct {
 			phi   *ssa.Phi
 			v, ok bool
+			alias ssa.Value
 		}
 		var ups []upd
 		for _, in := range s.Instrs {
@@ -426,10 +488,30 @@ func (n walkNode) step(i int) walkNode {
 				continue
 			}
 			v, k := truthOf(phi.Edges[pi], b, env, 0)
-			ups = append(ups, upd{phi, v, k})
+			var alias ssa.Value
+			if !k {
+				if bt, isB := phi.Type().Underlying().(*types.Basic); isB && bt.Kind() == types.Bool {
+					switch e := phi.Edges[pi].(type) {
+					case *ssa.BinOp:
+						alias = e
+					case *ssa.UnOp:
+						if e.Op == token.NOT {
+							alias = e
+						}
+					case *ssa.Phi:
+						if a := envAlias(env, e); a != nil {
+							alias = a
+						}
+					}
+				}
+			}
+			ups = append(ups, upd{phi, v, k, alias})
 		}
 		for _, u := range ups {
 			env = envSet(env, u.phi, u.v, u.ok)
+			if u.alias != nil {
+				env = envSetAlias(env, u.phi, u.alias)
+			}
 		}
 	} else {
 		// entry edge not unique: forget what was known about this block's phis
@@ -669,6 +751,26 @@ func (n walkNode) effectiveIf(iff *ssa.If) *ssa.If {
 	}
 	phi := condIsLocalPhi(n.b)
 	if phi == nil {
+		// the condition is (a negation of) a phi of an earlier block that, on this path, carries an
+		// unevaluated comparison: the edge predicates see that comparison
+		negated := false
+		v := iff.Cond
+		for {
+			u, ok := v.(*ssa.UnOp)
+			if !ok || u.Op != token.NOT {
+				break
+			}
+			negated = !negated
+			v = u.X
+		}
+		if p, ok := v.(*ssa.Phi); ok {
+			if a := envAlias(n.env, p); a != nil {
+				if negated {
+					return &ssa.If{Cond: &ssa.UnOp{Op: token.NOT, X: a}}
+				}
+				return &ssa.If{Cond: a}
+			}
+		}
 		return iff
 	}
 	pi := predIndex(n.pred, n.b)
@@ -710,6 +812,31 @@ func (n walkNode) effectiveIf(iff *ssa.If) *ssa.If {
 	}
 	if _, isC := ev.(*ssa.Const); isC {
 		return iff
+	}
+	// the value flowing in may itself be (a negation of) a phi of an earlier block that carries an
+	// unevaluated comparison on this path
+	for d := 0; d < 3; d++ {
+		inner, neg2 := ev, false
+		for {
+			u, ok := inner.(*ssa.UnOp)
+			if !ok || u.Op != token.NOT {
+				break
+			}
+			neg2 = !neg2
+			inner = u.X
+		}
+		p, ok := inner.(*ssa.Phi)
+		if !ok {
+			break
+		}
+		a := envAlias(n.env, p)
+		if a == nil {
+			break
+		}
+		ev = a
+		if neg2 {
+			negated = !negated
+		}
 	}
 	if negated {
 		// `if !flag` with flag = <comparison> on this path: the edge predicates see !<comparison>
